@@ -113,7 +113,7 @@ func typeOK(t *spec.Target, tt string) bool {
 // RunC20: query commands agree with the graph and predict rebuilds.
 func RunC20(tier string) int {
 	run := report.New("C20", tier, "exploration",
-		"seeded multi-package workspaces with aliases, alias chains, globs with excludes, test and bin targets: for every node `grog deps`/`rdeps` with and without -t and with every --target-type; `grog owners` for every source file spelled relative to different working directories; `grog list` with --tag/--exclude-tag filters (one to three tags) and pattern sets and type filters; then one edited file followed by a build; "+
+		"seeded multi-package workspaces with aliases, alias chains, globs with excludes, test and bin targets: for every node `grog deps`/`rdeps` with and without -t and with every --target-type; `grog owners` for every source file spelled relative to different working directories; `grog list` with --tag/--exclude-tag filters (one to three tags) and pattern sets and type filters; then one edited file followed by a build; a parent package with inputs (literal and **-glob) inside the directories of nested packages (owners from three working directories, edit + rebuild); 400 directories whose package is defined by two to four files at once listed over and over with 3..32 loader workers (every defined label each time); "+
 			"oracle: reference graph with aliases as nodes (exact sets, each label printed once, x in deps(y) <=> y in rdeps(x) on grog's own answers), owners = targets whose resolved inputs contain the file, executed set after the edit must be inside grog's own owners(f) + transitive rdeps; alias lines under a type filter are may-print; "+
 			"non-trivial = query with a non-empty expected answer; distinct = query kind + answer size + shape")
 	st, err := e1.Prepare(run, false)
@@ -396,6 +396,12 @@ func RunC20(tier string) int {
 		_ = os.Remove("")
 		run.Sample(map[string]any{"case": i, "shape": s.Shape(), "nodes": g.labels})
 	})
+	if report.Part("storm") {
+		multiFilePackagesPart(run, st, tier, "list")
+	}
+	if report.Part("nested") {
+		nestedOwnersPart(run, st)
+	}
 	run.Assume("aliases are nodes of the dependency relation; whether an alias line passes a --target-type filter is not fixed by the statement (may-print)")
 	return run.Finish()
 }
